@@ -17,7 +17,11 @@ CHECKS = {
               "the eleven strict binary operators and short-circuit and/or, the bytes that compile_expr emits - decoded and dispatched by the VM model's own step "
               "function at any offset of any function of any module below 2 GiB - push exactly the value the reference computes and leave heap, output, globals, "
               "frames and the rest of the stack unchanged; compile_expr_correct_native carries it to the reference's native configuration (native_ok_implies_vm). "
-              "Statements, calls, strings and containers are not covered by that theorem yet: there agreement rests on correspondence only. The native back end is not modelled as code: it is represented by Sem's native configuration "
+              "compile_stmt_correct and compile_body_correct (Lemmas/CompileStmt.lean) extend this to statements over scalars: assignment to a local, print/println, "
+              "if with and without else, while with any number of iterations (induction on the reference's fuel; forward and backward relative jumps), nested blocks, "
+              "and let at the level of the function body: the VM model reaches the end of the generated code in a state that represents the reference's final state, "
+              "with exactly the same bytes written to standard output. Not covered by these theorems (agreement rests on correspondence only): declarations inside nested "
+              "blocks, break/continue/return/for, calls, global variables, strings and containers. The native back end is not modelled as code: it is represented by Sem's native configuration "
               "(tied in C02) and compared directly with the VM: every program is compiled by nanoc and run and run by nano_virt --run, stdout and exit status must be "
               "equal unless the reference says the run performs a partial operation. VM side tied by byte-identical .nvm files from the front-end models."),
         note=TB + " Partial: no theorem covers the C transpiler or the C runtime; the proved statement about the two back ends is at the level of the reference configurations.",
